@@ -61,6 +61,9 @@ pub enum Outcome {
     Error { msg: String, planned: bool },
     /// client dropped the result early on purpose
     Dropped { rows_seen: usize },
+    /// the engine panicked while this statement was being planned/pulled on the
+    /// client side (a pipeline-task panic surfaces as `RunEnd::Panic` instead)
+    Panic { msg: String },
 }
 
 impl Outcome {
@@ -103,6 +106,7 @@ pub struct RunReport {
     pub fs_errors_fired: u64,
     pub fs_opens: Vec<String>,
     pub task_table: Vec<(TaskId, u64, &'static str, bool)>,
+    pub parked_desc: Vec<String>,
     pub events: Vec<(u64, TaskId, u8)>,
 }
 
@@ -222,7 +226,14 @@ pub fn run_scenario(sc: &Scenario, chooser: Chooser, announce: Option<&dyn Fn(us
                 if let Some(p) = announce_ptr {
                     unsafe { (*p)(si, i) };
                 }
-                let outcome = run_stmt(&mut session, stmt).await;
+                let outcome = {
+                    let mut fut: Pin<Box<dyn Future<Output = Outcome> + '_>> = Box::pin(run_stmt(&mut session, stmt));
+                    std::future::poll_fn(|cx| match std::panic::catch_unwind(std::panic::AssertUnwindSafe(|| fut.as_mut().poll(cx))) {
+                        Ok(p) => p,
+                        Err(_) => Poll::Ready(Outcome::Panic { msg: crate::sim::take_last_panic().unwrap_or_else(|| "<panic>".into()) }),
+                    })
+                    .await
+                };
                 let mut c = cs.borrow_mut();
                 c.outcomes.push(StmtOutcome { outcome, end_step: step_counter() });
                 c.boundary = true;
@@ -245,6 +256,7 @@ pub fn run_scenario(sc: &Scenario, chooser: Chooser, announce: Option<&dyn Fn(us
         false
     };
     let end = world.run(&boundary);
+    let end_is_hang = matches!(end, RunEnd::LostWakeup { .. } | RunEnd::NoProgress);
 
     let outcomes: Vec<Vec<StmtOutcome>> = shareds.iter().map(|s| s.borrow().outcomes.clone()).collect();
     let in_flight: Vec<usize> = shareds.iter().map(|s| s.borrow().current).collect();
@@ -260,6 +272,7 @@ pub fn run_scenario(sc: &Scenario, chooser: Chooser, announce: Option<&dyn Fn(us
                 }
                 Outcome::Error { msg, .. } => trace.str(msg),
                 Outcome::Dropped { .. } => trace.u64(0xdead),
+                Outcome::Panic { msg } => trace.str(msg),
             }
         }
     }
@@ -275,6 +288,7 @@ pub fn run_scenario(sc: &Scenario, chooser: Chooser, announce: Option<&dyn Fn(us
         fs_errors_fired: fs.core.errors_fired.load(Ordering::Relaxed),
         fs_opens: fs.core.opens.lock().unwrap().clone(),
         task_table: world.task_table(),
+        parked_desc: if matches!(end_is_hang, true) { world.describe_parked() } else { vec![] },
         events: std::mem::take(&mut world.events),
     }
 }
